@@ -10,3 +10,4 @@ import Lace.Model.Air
 import Lace.Model.Parser
 import Lace.Model.Assemble
 import Lace.Props.C02
+import Lace.Props.C05
